@@ -176,6 +176,8 @@ ALL = [f"C{i:02d}" for i in range(1, 21)]
 # rules added after the fifth seeded round (DESIGN.md §21); appended to the claim text of each property
 HISTORY_FREE = " (HISTORY-FREE) no routine of the modules this property is anchored in makes its result depend on earlier calls: a memo table (module-level container written at run time) is keyed by everything its value is computed from -- per facet: value / shape / dtype-and-device of an array -- no key component drops the values of a mapping, a value taken from a memo table or a functools cache is never modified in place, and no module global is rebound at run time (a cache the rule can prove consistent is accepted)."
 EXTRA = {
+    "C02": " (INDEX-WIDTH) in sample_khatri_rao the mixed-radix accumulation of the sampled row index starts from an integer array with an explicit wide dtype, so the row index cannot inherit a narrow integer type from the caller's index arrays.",
+    "C09": " (NO-RECAST) in tensor_train / tensor_ring / partial_tucker no value derived from an SVD is re-typed to the context or dtype of the data argument (the property quantifies over integer tensors, whose floating-point cores such a cast truncates).",
     "C04": " (GUARD-EXACT) in cp_normalize / tucker_normalize / parafac2_normalise the scale that divides a factor and the scale absorbed into the weights / core are the same value or differ only by a guard where(<scale is exactly zero>, 1, scale); a threshold guard leaves a non-null column un-normalised while its norm is still absorbed.",
     "C05": " (DIV-GUARDED) in the SVD methods of SVD_FUNS and in make_svd_non_negative every division has a strictly positive denominator: by construction (clipped / floored at a positive constant or machine epsilon, square roots and reshapes of such) or because it sits under `if P > Q` with the denominator a factor of the product P of norms and Q >= 0; singular vectors and NNDSVD columns stay finite for exactly singular input and one-signed singular vectors (found and repaired: fix d4592a7).",
     "C07": " (ACCEPT-EVALUATED) PARAFAC2's line-search step returns the model its error was evaluated on: between the evaluation and the return that hands back (model, error) no part of that model is written.",
